@@ -5,6 +5,9 @@ From XcpModel Require Import Base Extents Sparse Blocks CopyLoop FileCopy.
 From XcpProofs Require Import ExtentsProofs SparseProofs BlocksProofs CopyLoopProofs FileCopyProofs.
 From XcpModel Require Import Extracted.
 From XcpProofs Require Import ExtractedOk.
+From XcpModel Require Import ConcBlock ConcOutcome.
+From XcpProofs Require Import ConcBlockProofs ConcOutcomeProofs.
+From Coq Require Import Permutation.
 From Coq Require Import Permutation.
 
 (* nothing of a previous destination survives: after CopyHandle::new the
@@ -116,6 +119,37 @@ Theorem C01_src_noprogress_block_size : forall bs,
   x_config_block_size true bs = U64MAX /\ x_config_block_size false bs = bs.
 Proof. exact x_config_block_size_ok. Qed.
 
+(* the lift to every interleaving of parblock: in EVERY schedule (any W, Q) that reaches the end, the
+   blocks written for file h are pairwise distinct and every byte below `len` lies in exactly one of
+   them — the per-block exactness above (C01_parblock_file) then gives the bytes *)
+Theorem C01_every_schedule_every_byte_once : forall W Q ops s h len bsz,
+  reachable W Q ops s -> final s = true -> 0 < bsz ->
+  nth_error ops h = Some (OCopy (seq 0 (N.to_nat (nblocks len bsz)))) ->
+  NoDup (blocks_of h (b_ev s)) /\
+  forall i, i < len ->
+    exists b, In b (blocks_of h (b_ev s)) /\
+      blk_off 0 bsz (N.of_nat b) <= i < blk_off 0 bsz (N.of_nat b) + blk_bytes len bsz (N.of_nat b) /\
+      forall b', In b' (blocks_of h (b_ev s)) ->
+        blk_off 0 bsz (N.of_nat b') <= i < blk_off 0 bsz (N.of_nat b') + blk_bytes len bsz (N.of_nat b') -> b' = b.
+Proof.
+  intros W Q ops s h len bsz Hr Hf Hbs Hn.
+  destruct (parblock_any_schedule W Q ops s Hr Hf) as [H _]. specialize (H h _ Hn).
+  destruct (phase_of h (b_ev s)) as [|bs0|bs| |] eqn:Eph; try contradiction. cbn [outcome_ok] in H.
+  rewrite <- (phase_blocks h (b_ev s) bs (or_intror Eph)).
+  assert (forall b, In b bs <-> (b < N.to_nat (nblocks len bsz))%nat) as Hin.
+  { intros b. split; intros Hb.
+    - apply (Permutation_in _ H) in Hb. apply in_seq in Hb. lia.
+    - apply (Permutation_in _ (Permutation_sym H)). apply in_seq. lia. }
+  split.
+  - apply (Permutation_NoDup (Permutation_sym H)). apply seq_NoDup.
+  - intros i Hi. destruct (blk_cover 0 len bsz i Hbs ltac:(lia)) as (k & Hk & Hc).
+    exists (N.to_nat k). rewrite N2Nat.id. split; [apply Hin; lia|]. split; [exact Hc|].
+    intros b' Hb' Hc'. apply Hin in Hb'.
+    assert (N.of_nat b' = k) as <-.
+    { apply (blk_disjoint 0 len bsz (N.of_nat b') k i Hbs); try assumption. lia. }
+    now rewrite Nat2N.id.
+Qed.
+
 Print Assumptions C01_dest_fresh_after_new.
 Print Assumptions C01_blocks_partition.
 Print Assumptions C01_copy_bytes_exact.
@@ -125,3 +159,4 @@ Print Assumptions C01_parfile_nothing_beyond.
 Print Assumptions C01_src_block_partition.
 Print Assumptions C01_src_copy_bytes_loop.
 Print Assumptions C01_src_noprogress_block_size.
+Print Assumptions C01_every_schedule_every_byte_once.
